@@ -53,6 +53,8 @@ struct World {
     account: ComponentAddress,
     pk: Secp256k1PublicKey,
     ruids: Vec<NonFungibleLocalId>, // index -> generated id (per world, global numbering)
+    tx_counter: u64,
+    generator_mismatch: Vec<String>,
 }
 
 fn ty_coq(t: Ty) -> &'static str {
@@ -92,7 +94,7 @@ impl World {
     fn new() -> World {
         let mut ledger = LedgerSimulatorBuilder::new().build();
         let (pk, _, account) = ledger.new_account(false);
-        World { ledger, account, pk, ruids: Vec::new() }
+        World { ledger, account, pk, ruids: Vec::new(), tx_counter: 0, generator_mismatch: Vec::new() }
     }
     fn local_id(&self, id: &Id) -> NonFungibleLocalId {
         match id.0 {
@@ -177,7 +179,16 @@ impl World {
             Op::Burn(ids) => b.burn_non_fungibles_in_account(self.account, res, ids.iter().map(|i| self.local_id(i)).collect::<Vec<_>>()),
             Op::Update(id, f, v) => b.update_non_fungible_data(res, self.local_id(id), FIELD_NAMES[*f], *v),
         };
-        let receipt = self.ledger.execute_manifest(b.build(), [NonFungibleGlobalId::from_public_key(self.pk)]);
+        // RUID mints run in a transaction whose hash the harness chooses, so that the generator
+        // (hash(transaction hash ++ counter), counter from 0) can be recomputed
+        self.tx_counter += 1;
+        let tx_hash = hash(format!("vh c43 transaction {}", self.tx_counter));
+        let receipt = if matches!(op, Op::MintRuid(_)) {
+            let tx = TestTransaction::new_v1(b.build(), tx_hash, btreeset![NonFungibleGlobalId::from_public_key(self.pk)]);
+            self.ledger.execute_test_transaction(tx)
+        } else {
+            self.ledger.execute_manifest(b.build(), [NonFungibleGlobalId::from_public_key(self.pk)])
+        };
         match &receipt.result {
             TransactionResult::Commit(c) => match &c.outcome {
                 TransactionOutcome::Success(_) => {
@@ -185,6 +196,13 @@ impl World {
                         let evs: Vec<MintNonFungibleResourceEvent> = self.ledger.extract_events_of_type(c);
                         let ids: Vec<NonFungibleLocalId> = evs.into_iter().flat_map(|e| e.ids.into_iter()).collect();
                         assert_eq!(ids.len(), entries.len());
+                        for (k, l) in ids.iter().enumerate() {
+                            let mut buf = tx_hash.0.to_vec();
+                            buf.extend_from_slice(&(k as u32).to_le_bytes());
+                            if *l != NonFungibleLocalId::ruid(hash(buf).0) {
+                                self.generator_mismatch.push(format!("ruid {} of transaction {} is not hash(tx_hash ++ {}u32)", l, self.tx_counter, k));
+                            }
+                        }
                         for (k, l) in ids.iter().enumerate() {
                             entries[k].0 = (Ty::Ruid, self.ruid_index(l));
                         }
@@ -445,7 +463,9 @@ fn main() {
         let canon = format!("{:?} {} {}", case.ty, entries_coq(&case.initial), case.steps.iter().map(|(o, out, _)| format!("{}=>{}", op_coq(o), out)).collect::<Vec<_>>().join(";"));
         report.case(&canon, relock && immut);
         report.count(&format!("type.{}", ty_coq(case.ty)));
-        for what in oracle(&case) {
+        let mut fails = oracle(&case);
+        fails.extend(w.generator_mismatch.drain(..));
+        for what in fails {
             report.oracle_failure(i, "", &what, json!({"ty": ty_coq(case.ty), "initial": entries_coq(&case.initial), "steps": case.steps.iter().map(|(o, out, _)| format!("{} => {}", op_coq(o), out)).collect::<Vec<_>>()}));
         }
         if i < 2 {
